@@ -46,6 +46,9 @@ type Contract struct {
 	Emits        string // name of callback parameter for the emit idiom
 	Inline       bool
 	LocalEffects bool
+	Applies      []*ECall // lemma instances assumed at entry
+	NoBatch      bool
+	Chunk        int // maximal number of split instances per solver process (0: default)
 	AssumeCall   map[string][]Clause // callee name -> restriction assumed on its results at call sites in this function
 	Modifies     []string // ghost relations the function may change
 	ParamNames   []string // receiver and argument names of an interface method contract
@@ -298,6 +301,18 @@ func (cs *ContractSet) parseFile(path, pkgDir string) error {
 				cur.AssumeCall = map[string][]Clause{}
 			}
 			cur.AssumeCall[fl[0]] = append(cur.AssumeCall[fl[0]], Clause{Expr: e, Text: fl[1], File: path, Line: rl.line})
+		case "nobatch":
+			// every obligation is its own query with the full timeout (instances whose batched query is hard)
+			if cur == nil {
+				return fail("nobatch outside a contract")
+			}
+			cur.NoBatch = true
+		case "chunk":
+			// chunk N: at most N split instances per solver process (arithmetic-heavy instances are faster alone)
+			if cur == nil {
+				return fail("chunk outside a contract")
+			}
+			fmt.Sscanf(rest, "%d", &cur.Chunk)
 		case "localeffects":
 			// every heap write of the function targets objects it allocates itself (checked by the F obligations)
 			if cur == nil {
@@ -358,7 +373,22 @@ func (cs *ContractSet) parseFile(path, pkgDir string) error {
 					lem.Reveal[n] = true
 				}
 			}
-		case "define", "defineopaque":
+		case "apply":
+			// apply <lemma>(args): ground instances of a separately proved lemma (its non-split variables bound to the
+			// argument expressions, its split variables expanded over their ranges) are assumed at function entry
+			if cur == nil {
+				return fail("apply outside a contract")
+			}
+			e, err := ParseExpr(rest)
+			if err != nil {
+				return fail("%v", err)
+			}
+			call, ok := e.(*ECall)
+			if !ok {
+				return fail("apply: want 'apply <lemma>(args)'")
+			}
+			cur.Applies = append(cur.Applies, call)
+		case "define", "defineopaque", "defineopaqueint":
 			// define name(a, b:str) = expr
 			eq := strings.Index(rest, "=")
 			if eq < 0 {
@@ -393,7 +423,8 @@ func (cs *ContractSet) parseFile(path, pkgDir string) error {
 				return fail("%v", err)
 			}
 			d.Body = e
-			d.Opaque = word == "defineopaque"
+			d.Opaque = word == "defineopaque" || word == "defineopaqueint"
+			d.IntResult = word == "defineopaqueint"
 			cs.Defs[d.Name] = d
 		case "props":
 			if cur != nil {
